@@ -1368,11 +1368,15 @@ func (h *Hashgraph) ProcessSigPool() error {
 
 		valid, err := block.Verify(bs)
 		if err != nil {
+			// A malformed signature can never become valid: drop it, otherwise
+			// it stays in the pool and every later call stops here, before the
+			// remaining (valid) signatures are processed.
 			h.logger.WithFields(logrus.Fields{
 				"index": bs.Index,
 				"msg":   err,
 			}).Error("Verifying Block signature")
-			return err
+			h.PendingSignatures.Remove(bs.Key())
+			continue
 		}
 		if !valid {
 			bytesBlock, _ := block.Marshal()
